@@ -32,7 +32,7 @@ Lemma Mid_init s T :
   (∀ t n, pred s !! t = Some n ↔ succ s !! n = Some t ∧ n ∉ T) →
   Mid s0 x s T.
 Proof.
-  intros Hs (Hk1&Hk2&Hk3&Hk4&Hk5&Hk6) Hll HT Hp.
+  intros Hs (Hk1&Hk2&Hk3&Hk4&Hk5&Hk6&Hk7) Hll HT Hp.
   assert (Hlk : ∀ n, succ s !! n = relab s0 x <$> succ s0 !! n).
   { intros n. by rewrite Hs, lookup_fmap. }
   assert (Hnv : nvars s = nvars s0) by (unfold nvars; by rewrite Hk4).
